@@ -1,5 +1,6 @@
 import Driver.C01
 import Driver.C03
+import Driver.C04
 import Driver.C14
 import Driver.C15
 import Driver.C16
@@ -11,6 +12,7 @@ def dispatch (line : String) : String :=
   match line.trimAscii.toString.splitOn " " with
   | "C01" :: args => Driver.C01.handle args
   | "C03" :: args => Driver.C03.handle args
+  | "C04" :: args => Driver.C04.handle args
   | "C14" :: args => Driver.C14.handle args
   | "C15" :: args => Driver.C15.handle args
   | "C16" :: args => Driver.C16.handle args
